@@ -182,6 +182,20 @@ func (c *Crew) Errorf(format string, args ...interface{}) {
 // When the mid is either (the variable) TimersMachine and the given
 // state is nil, the timers machine's state is reset.
 func (c *Crew) SetMachine(ctx context.Context, mid string, src *crew.SpecSource, state *core.State) error {
+	// Resolve the spec first: a spec that can't be resolved
+	// (or doesn't compile) must not leave a half-made change
+	// (and a report of a spec the machine doesn't have).
+	var (
+		ss   *crew.SpecSource
+		spec *core.Spec
+	)
+	if src != nil && mid != TimersMachine && mid != CaptainMachine {
+		var err error
+		if ss, spec, err = ResolveSpecSource(ctx, src); err != nil {
+			return err
+		}
+	}
+
 	m, have := c.Machines[mid]
 
 	if !have {
@@ -242,10 +256,6 @@ func (c *Crew) SetMachine(ctx context.Context, mid string, src *crew.SpecSource,
 		m.Specter = spec
 	default:
 		if src != nil {
-			ss, spec, err := ResolveSpecSource(ctx, src)
-			if err != nil {
-				return err
-			}
 			m.SpecSource = ss
 			m.Specter = spec
 		}
